@@ -11,7 +11,7 @@ backend as it was the statement is false: `current_refuted_raw`, `current_refute
 counter-examples (both replayed on the real code by the check), and `current_matches_spec_partial` is what
 remains true of it.
 -/
-import RedunModel.Lemmas.Handles
+import RedunModel.Lemmas.HandlesChain
 namespace RedunModel.C25
 open RedunModel.Handles
 
@@ -139,5 +139,51 @@ example : ∀ op ∈ witnessRaw ++ witnessFork, WFOp (fun _ : Nat => "h") op := 
   intro op hop
   simp only [witnessRaw, witnessFork, List.cons_append, List.nil_append, List.mem_cons, List.not_mem_nil, or_false] at hop
   rcases hop with rfl | rfl | rfl | rfl | rfl | rfl | rfl | rfl | rfl | rfl <;> simp [WFOp, ref, par]
+
+/-- **Partial result for the backend as it was** (the full-strength statement is `matches_spec`; it is false of
+this variant, see the two `current_refuted_*`): on every ancestor-closed state — a valid state's recorded parents
+are valid — whose rows carry the fullname of their hash, the unrepaired `rollback_handle` leaves exactly the valid
+set (and edges) the repaired one leaves, i.e. the reference's.  What is missing: states that are not
+ancestor-closed (raw histories can produce them, `current_refuted_raw`) and unrecorded fork links. -/
+theorem current_matches_spec_partial (nm : H → String) (st : St H) (hn : ∀ r ∈ st.rows, r.name = nm r.hash)
+    (hc : Closed st) (h : HRef H) :
+    ∃ s1 s2, st.rollback false h = .ok s1 ∧ st.rollback true h = .ok s2 ∧ s1.edges = s2.edges ∧
+      ∀ x, s1.isValid x = s2.isValid x :=
+  rollback_current_eq_fixed_of_closed nm st hn hc h
+
+/-! ### the scheduler driving the backend -/
+
+theorem closed_of_J {name k : String} {st : St HT} {cur : List String} (h : J name k st cur) : Closed st := by
+  intro a b hab hb
+  rcases h.edgeShape a b hab with ⟨p, rfl, rfl⟩ | ⟨p, t, rfl, rfl⟩
+  · exact (h.parentFk p hb).1
+  · exact (h.parentNode p t hb).1
+
+/-- The way the scheduler calls the backend for chains of handle-writing tasks keeps every state ancestor-closed
+(so `current_matches_spec_partial` applies to it) — after any history of executions, either variant. -/
+theorem sched_preserves_closed (fixed : Bool) (name : String) (history : List (List String)) :
+    ∃ w, runWorkflows fixed name {} history = .ok w ∧ Closed w.st := by
+  obtain ⟨w, hw, hj⟩ := runWorkflows_spec fixed name history {} (J_init name "1")
+  exact ⟨w, hw, closed_of_J hj⟩
+
+/-- **No invalidated handle state is ever replayed.**  After any history of executions of chain workflows on
+`Handle(name)` (any task lists: edits, reverts, shorter and longer chains), one more execution of the chain `ts`
+succeeds, its result is a valid state, and the external system reflects exactly the requested chain `ts`: every
+task whose cached result had been superseded was re-executed.  Holds for the repaired and for the unrepaired
+backend. -/
+theorem chain_no_stale_replay (fixed : Bool) (name : String) (history : List (List String)) (ts : List String) :
+    ∃ w w' final ran, runWorkflows fixed name {} history = .ok w ∧
+      runWorkflow fixed w name ts = .ok (w', final, ran) ∧ ts <+: w'.ext ∧ (ts = [] ∨ w'.st.isValid final = true) := by
+  obtain ⟨w, hw, hj⟩ := runWorkflows_spec fixed name history {} (J_init name "1")
+  obtain ⟨w', ran, hrc, _, hp, hv⟩ := runChain_spec name "1" fixed ts w [] [] hj List.nil_prefix (Or.inl rfl)
+  simp only [List.length_nil, node_nil, List.nil_append] at hrc hp hv
+  exact ⟨w, w', _, ran, hw, hrc, hp, hv⟩
+
+/-- non-vacuity: run `[a, b]`, edit the second task (`[a, c]`), revert (`[a, b]`): the reverted task runs again -/
+example : (match runWorkflows false "h" {} [["a", "b"], ["a", "c"]] with
+    | .ok w => (match runWorkflow false w "h" ["a", "b"] with
+      | .ok (w', _, ran) => (ran, w'.ext)
+      | .error _ => ([], []))
+    | .error _ => ([], [])) = (["b"], ["a", "b"]) := by decide
 
 end RedunModel.C25
